@@ -344,6 +344,7 @@ pub fn finish(ctx: &Ctx, rep: &Report, wall_s: f64) -> i32 {
                 ("property", J::s(&ctx.id)),
                 ("profile", J::s(ctx.profile)),
                 ("key", J::s(key)),
+                ("tier", J::s(if ctx.quick() { "quick" } else { "thorough" })),
                 ("what", J::s(&v.what)),
                 ("replay", v.replay.clone()),
                 ("same_key_count", J::from(vs.len())),
